@@ -495,7 +495,15 @@ def exec_case(R, r, t, d, e, form, mutate=True):
         return
     vs, arg = vsexp(t, d, cache, form)
     ops, exp = [], []
-    tb, ctx_, live = make_placement(r, ops, exp)
+    try:
+        tb, ctx_, live = make_placement(r, ops, exp)
+    except Exception as ex:
+        # the raw allocations of the placement already misbehave (a region beyond the capacity, ...): the allocator's properties
+        # (C04/C12) are checked by their own component; this case cannot be built
+        R.tags["placement-raises:" + type(ex).__name__] += 1
+        R.fail("C04:placement-raises:" + type(ex).__name__, f"prior allocations of the placement: {type(ex).__name__}: {str(ex)[:160]}",
+               {"component": "lay", "ops": list(ops)})
+        return
     buf = tb.buf
     before = image(buf)
     cap0 = buf.capacity
@@ -591,6 +599,23 @@ def exec_case(R, r, t, d, e, form, mutate=True):
     # ---------------- element reads, bad indices, assignments (model tie + C10/C11 oracles)
     if mutate and view is not None:
         mutate_case(R, r, t, d, e, obj, view, cls, cache, buf, ops, exp, cctx, sx)
+    # ---------------- C01: "wherever in that buffer it lands" - a LATER object built in the same buffer (into a hole left by the
+    # placement's frees, or behind the object; any default alignment) must not change what this object reads
+    try:
+        xo = common.import_xobjects()
+        was = deep_str(t, obj, cache)
+        nn = r.choice([1, 2, 3, 4, 5])
+        later = xo.Float64[nn]([float(i + 7) for i in range(nn)], _buffer=buf)
+        now = deep_str(t, obj, cache)
+        if now != was:
+            R.fail("C01:value-changed-by-later-construction",
+                   f"{sx[:200]} at {off} (size {size}): after Float64[{nn}] was built at {later._offset} in the same buffer (default "
+                   f"alignment {buf.default_alignment}) the object reads {now[:140]}, before {was[:140]}", cctx)
+        if [float(x) for x in later] != [float(i + 7) for i in range(nn)]:
+            R.fail("C01:value-differs", f"Float64[{nn}] built at {later._offset} after {sx[:160]} reads {[float(x) for x in later]}", cctx)
+        R.tags["C01.later-object"] += 1
+    except Exception as ex:
+        R.tags["later-object-exc:" + type(ex).__name__] += 1
     k0 = len(R.lines)
     R.lines += ops
     R.expect += exp
